@@ -39,6 +39,7 @@ SPECIAL_HEADERS = {
     "sys_cpp.hpp": "#include <cstdlib>\n#include <cstdint>\nstruct SysCpp { std::size_t n; std::uint8_t b; };\n",
     "has_feature.h": "#if __has_include(<demo_feature.h>)\n#include <demo_feature.h>\nstruct HasFeature { feature_t f; };\n#else\nstruct NoFeature { int n; };\n#endif\n#include <stddef.h>\nstruct Sz { size_t s; };\n",
     "featdir/demo_feature.h": "typedef long feature_t;\n",
+    "pointers.h": "struct Ptrs { void* p; long l; void (*f)(void*); unsigned long ul; };\nlong takes(long a, void* b);\n",
     "static_fn_small.h": "static inline int one(void) { return 1; }\n",
     "enums.h": "enum Color { RED, GREEN = 5, BLUE };\nenum Cold { ICE, SNOW };\nenum Other { X = 1, Y = 2 };\nstruct HasEnums { enum Color c; enum Cold d; enum Other o; };\n",
     "syntax_error.h": "struct Broken { int a; \nint oops(;\n",
@@ -104,6 +105,11 @@ def build_pool(seed, scratch, tier):
                                           "--newtype-enum", "C.*"])
     add("type-options-overlap", "many_types.hpp", ["--opaque-type", "W1.*", "--blocklist-type", "W1", "--no-copy", "S.*", "--no-debug", "S1.*",
                                                    "--must-use-type", "S.*", "--", "-x", "c++", "-std=c++14"])
+    # the target given in every spelling clang accepts (pointer width must follow it)
+    add("target-host", "pointers.h", [])
+    add("target-two-arg-i686", "pointers.h", ["--", "-target", "i686-unknown-linux-gnu"])
+    add("target-eq-i686", "pointers.h", ["--", "--target=i686-unknown-linux-gnu"])
+    add("target-two-arg-aarch64", "pointers.h", ["--", "-target", "aarch64-unknown-linux-gnu"])
     # system headers: the include-path detection result of one generation must not leak into the next
     add("sys-c", "sys_c.h", [])
     add("sys-cpp", "sys_cpp.hpp", [])  # C++ by file extension only: same clang flags as sys-c
@@ -284,6 +290,12 @@ def reference_table(pool, scratch):
 
 def family(job):
     return job["id"].split(":")[0] if job["id"].startswith("corpus:") else job["id"].rsplit("-", 1)[0] if job["id"].startswith("graph-") else job["id"]
+
+
+def work_burst(scratch):
+    d = os.path.join(scratch, "burst-ref")
+    os.makedirs(d, exist_ok=True)
+    return d
 
 
 def compare(job, obs, ref):
@@ -483,7 +495,8 @@ def run(tier, seed):
             # groups take turns so that each is exercised in every run
             focus_groups = [g for g in ([j for j in fast if j["id"].startswith("static-fns-wrap-shared-path")],
                                         [j for j in fast if j["id"].startswith("depfile-same-path")],
-                                        [j for j in fast if j["id"].startswith("sys-")]) if g]
+                                        [j for j in fast if j["id"].startswith("sys-")],
+                                        [j for j in fast if j["id"].startswith("target-")]) if g]
             focus = focus_groups[(i // 2) % len(focus_groups)] if (focus_groups and i % 2 == 1) else None
             for _ in range(k):
                 if focus and rng.chance(750):
@@ -615,6 +628,36 @@ def run(tier, seed):
                 out.violation({"class": "cli-output-differs", "tier": "cli", "job": family(j)},
                               {"engine": "c11", "kind": "cli", "job": j, "no_aslr": noaslr, "observed": r,
                                "expected_sha": lib_sha.get(job_key(j))})
+
+        # ---------------------------------------------------- parallel bursts: the same job, with a regular expression the
+        # process has never seen, on many truly parallel threads at once (races inside code that has no yield point;
+        # not replayable, but every thread must still produce the reference output)
+        n_burst = 12 if quick else 150
+        scns = []
+        burst_refs = {}
+        burst_base = [j for j in thread_ok if j["id"] in ("many-types-plain", "includes", "macros", "multi-abi-plain")]
+        for i in range(n_burst):
+            rng = Rng.for_case(seed, "c11-burst", i)
+            new_scenario()
+            base = rng.pick(burst_base)
+            uniq = f"never_matches_{seed}_{i}"
+            j = dict(base, id=f"burst-{i}:{base['id']}")
+            fl = list(base["flags"])
+            k = fl.index("--") if "--" in fl else len(fl)
+            j["flags"] = fl[:k] + ["--blocklist-item", uniq, "--allowlist-item", f".*|{uniq}", "--opaque-type", uniq] + fl[k:]
+            j["key"] = f"burst-{i}"
+            burst_refs[j["key"]] = j
+            scns.append({"op": "c11", "threads": [[mk(j)] for _ in range(8 if quick else 16)], "sched": None, "salt": 0,
+                         "hash_seed": rng.next()})
+        with concurrent.futures.ThreadPoolExecutor(max_workers=NCPU) as ex:
+            futs = {k: ex.submit(run_one, {"op": "gen", "job": instantiate(j, scratch, "br" + k)}, work_burst(scratch), "br" + k,
+                                 {"BVSIM_GETRANDOM_SEED": "12345"}) for k, j in burst_refs.items()}
+            for k, f in futs.items():
+                table[k] = f.result()
+        res = run_requests(scns, timeout=240, cwd=cwd, env=SHIM_ENV)
+        for s, r in zip(scns, res):
+            stats["parallel_bursts"] = stats.get("parallel_bursts", 0) + 1
+            check_results(s, r, "parallel-burst")
 
         # ---------------------------------------------------- free-running threads (auxiliary, not replayable)
         if not quick:
